@@ -8,6 +8,10 @@ def run(tier, seed):
     from contracts.branch_tables_c import suffix_obligations
 
     rep.extend(suffix_obligations())
+    from contracts.emitters_c import emitter_contracts
+    from pyvc.runner import run_contracts
+
+    run_contracts(rep, emitter_contracts())
     replay_known(rep, "C01")
     q = tier == "quick"
     run_bounded(rep, "C01", [("general", {}, "default", 1800 if q else 30000),
@@ -16,8 +20,9 @@ def run(tier, seed):
                 budget_s=75 if q else 1200, seed=seed)
     rep.trust("spec/ic10_machine.py (reference IC10 machine)", "spec/dialect.py (source executed by CPython against simulated devices)",
               "spec/ic10_ops.py", "spec/ic10_isa.py", "spec/enum_snapshot.json")
-    rep.assume("proved part: branch-suffix tables only (finite doubles; NaN excluded by the property's domain)",
+    rep.assume("proved part: branch-suffix tables (finite doubles; NaN excluded by the property's domain) and the device / slot / stack / batch emitters of types.py "
+               "(operand roles per spec/ic10_isa.py ROLES; compute_hash / format_enum through their contracts); the composition of emitted fragments is not proved",
                "bounded part: the simulation contract of compile_code is evaluated on generated programs only (sizes in coverage.bounded); "
                "programs stay in the fragment where Python and IC10 arithmetic coincide; shapes that trigger recorded known findings are excluded from generation (DESIGN 9)",
                "device reads are a function of (device, quantity, tick); the chip's own writes do not feed back into reads")
-    return rep.finish(min_obligations=14)
+    return rep.finish(min_obligations=150)
